@@ -336,5 +336,5 @@ func TestVerif_C42_Conc(t *testing.T) {
 		"git handles read with the fetch-dedup window disabled (SyncForReadTTL=1ns)")
 	defer rec.Write(t)
 	vh.Check(t, "conc", 40, 200, func(rt *rapid.T) { c42ConcCase(rt, rec, 12, 0) })
-	vh.Check(t, "conc_git", 2, 2, func(rt *rapid.T) { c42ConcCase(rt, rec, 0, 100) })
+	vh.Check(t, "conc_git", 2, 1, func(rt *rapid.T) { c42ConcCase(rt, rec, 0, 100) })
 }
